@@ -1,7 +1,191 @@
 package main
 
-// Property-specific extra obligations and bounded stand-ins.
+// Property-specific extra obligations (ground facts read mechanically from non-Go text) and
+// bounded stand-ins (labelled bounded, never counted as proved).
+
+import (
+	"encoding/json"
+	"fmt"
+	"go/ast"
+	"go/types"
+	"math/big"
+	"os"
+	"os/exec"
+	"path/filepath"
+	"regexp"
+	"strconv"
+	"strings"
+	"time"
+)
 
 func runExtras(p *Program, prop, tier string, seed int) *ExtraResult {
-	return nil
+	er := &ExtraResult{}
+	switch prop {
+	case "C16":
+		done := make(chan bool)
+		go func() { runBounded(p, er, "store", []string{"murmur", "crc"}, tier, seed); done <- true }()
+		crcTableObligations(p, er)
+		<-done
+	case "C09":
+		done := make(chan bool)
+		go func() { runBounded(p, er, "store", []string{"crc"}, tier, seed); done <- true }()
+		crcTableObligations(p, er)
+		<-done
+	}
+	if len(er.Obls) == 0 && len(er.Bounded) == 0 {
+		return nil
+	}
+	return er
+}
+
+// adhocExec: an executor used only to build terms over spec functions of a package.
+func adhocExec(p *Program, pkgShort, mode string) (*Exec, *FuncResult) {
+	pkg := p.Pkgs[pkgShort]
+	eng := newEngine(p)
+	c := NewCtx()
+	x := &Exec{eng: eng, c: c, mode: mode, pkg: pkg.Types, info: pkg.TypesInfo, key: pkgShort + ".extra",
+		counters: map[string]int{}, boxed: map[types.Object]bool{}, placehold: map[string]Val{}, assumed: map[string]bool{}, abstract: map[string]bool{},
+		loopOrd: map[ast.Stmt]int{}, rangeFacts: map[int]bool{}, callCount: map[string]int{}, specs: map[string]*specInfo{}, globalInit: map[string]bool{}}
+	fr := &FuncResult{Key: x.key, Ctx: c, Exec: x, Contract: &Contract{Key: x.key, Ints: mode, Pkg: pkg}}
+	return x, fr
+}
+
+var reCRCTable = regexp.MustCompile(`(?s)crc32_table\[256\]\s*=\s*\{(.*?)\};`)
+var reCRCLoop = regexp.MustCompile(`(?s)for\s*\(end = buf \+ len; buf < end; \+\+buf\)\s*crc = crc32_table\[\(crc \^ \*buf\) & 0xff\] \^ \(crc >> 8\);\s*return crc;`)
+
+// crcTableObligations: the 256 words of the C table (initializer text of the cgo preamble, read by
+// pattern) equal the bitwise reflected CRC-32 definition. Dropped: everything else of the C text,
+// except that the three-line loop is matched textually against the form the step lemma covers.
+func crcTableObligations(p *Program, er *ExtraResult) {
+	src, err := os.ReadFile(filepath.Join(p.RepoDir, "store", "crc32.go"))
+	fail := func(msg string) {
+		er.Obls = append(er.Obls, &Obligation{Name: "store.crc32_table/parse", Func: "store.crc32_table", Kind: "extra", Text: msg, Status: "error", Model: msg})
+	}
+	if err != nil {
+		fail("cannot read store/crc32.go: " + err.Error())
+		return
+	}
+	m := reCRCTable.FindSubmatch(src)
+	if m == nil {
+		fail("crc32_table initializer not found in the cgo preamble of store/crc32.go")
+		return
+	}
+	var words []uint64
+	for _, f := range strings.FieldsFunc(string(m[1]), func(r rune) bool { return r == ',' || r == ' ' || r == '\n' || r == '\t' || r == '\r' }) {
+		v, err := strconv.ParseUint(f, 0, 32)
+		if err != nil {
+			fail("bad table word " + f)
+			return
+		}
+		words = append(words, v)
+	}
+	if len(words) != 256 {
+		fail(fmt.Sprintf("crc32_table has %d words, want 256", len(words)))
+		return
+	}
+	x, fr := adhocExec(p, "store", "bv")
+	fn, _ := x.pkg.Scope().Lookup("specCRCTable").(*types.Func)
+	if fn == nil {
+		fail("spec function specCRCTable not found")
+		return
+	}
+	func() {
+		defer func() {
+			if r := recover(); r != nil {
+				fail(fmt.Sprint("cannot translate specCRCTable: ", r))
+			}
+		}()
+		si := x.specFor(fn)
+		c := x.c
+		for blk := 0; blk < 16; blk++ {
+			var conj []*Term
+			for i := blk * 16; i < blk*16+16; i++ {
+				conj = append(conj, c.Eq(c.App(si.Name, x.idxLit(int64(i))), c.BV(32, new(big.Int).SetUint64(words[i]))))
+			}
+			o := &Obligation{Name: fmt.Sprintf("store.crc32_table/entries#%d-%d", blk*16, blk*16+15), Func: "store.crc32_table", Kind: "extra",
+				Text: fmt.Sprintf("crc32_table[i] == specCRCTable(i) for i in %d..%d (initializer text of the cgo preamble)", blk*16, blk*16+15),
+				Goal: c.And(conj...), Assumptions: nil}
+			er.Obls = append(er.Obls, o)
+		}
+	}()
+	frs := []*FuncResult{fr}
+	fr.Obls = er.Obls
+	solveAll(frs, 10, false, 5)
+	nOK := 0
+	for _, o := range er.Obls {
+		if o.Status == "unsat" {
+			nOK++
+		}
+	}
+	er.Functions = append(er.Functions, map[string]interface{}{"function": "store.crc32_table (C initializer, 256 words)", "status": "verified (ground obligations)", "obligations": len(er.Obls), "discharged": nOK})
+	if !reCRCLoop.Match(src) {
+		er.Obls = append(er.Obls, &Obligation{Name: "store.crc32_write/loop-text", Func: "store.crc32_write", Kind: "extra",
+			Text: "the C loop has the textual form covered by lemmaCRCStep", Status: "sat",
+			Model: "the C text of crc32_write no longer matches `for (end = buf + len; buf < end; ++buf) crc = crc32_table[(crc ^ *buf) & 0xff] ^ (crc >> 8); return crc;` — the step lemma does not cover it"})
+	} else {
+		er.Obls = append(er.Obls, &Obligation{Name: "store.crc32_write/loop-text", Func: "store.crc32_write", Kind: "extra",
+			Text: "the C loop has the textual form covered by lemmaCRCStep (pattern match on the cgo preamble)", Status: "unsat", Backend: "pattern-match"})
+	}
+	er.Assumed = append(er.Assumed, "C semantics of the three-line crc32_write loop (matched textually; the Go side only sees the assumed contract of crc32.write); bounded differential below")
+}
+
+// ---------- bounded stand-ins ----------
+
+// runBounded runs /verif/govc/bounded/<pkg>_<name>_test.go.txt (one file per name) as in-package
+// tests through one `go test -overlay` invocation and records the outcomes under
+// coverage.bounded_checks.
+func runBounded(p *Program, er *ExtraResult, pkgShort string, names []string, tier string, seed int) {
+	repo := p.RepoDir
+	repl := map[string]string{}
+	recs := map[string]map[string]interface{}{}
+	for _, name := range names {
+		tmpl := filepath.Join(verifDir, "govc", "bounded", pkgShort+"_"+name+"_test.go.txt")
+		rec := map[string]interface{}{"name": pkgShort + "." + name, "label": "bounded", "template": tmpl}
+		recs[name] = rec
+		src, err := os.ReadFile(tmpl)
+		if err != nil {
+			rec["error"] = err.Error()
+			continue
+		}
+		srcFile := filepath.Join(scratchDir, "bounded_"+name+"_test.go")
+		os.WriteFile(srcFile, src, 0o644)
+		repl[filepath.Join(repo, pkgShort, "zz_govc_bounded_"+name+"_test.go")] = srcFile
+	}
+	ovData, _ := json.Marshal(map[string]map[string]string{"Replace": repl})
+	ovFile := filepath.Join(scratchDir, "overlay_bounded_"+pkgShort+".json")
+	os.WriteFile(ovFile, ovData, 0o644)
+	t0 := time.Now()
+	cmd := exec.Command("go", "test", "-tags", "verif", "-overlay", ovFile, "-vet=off", "-count=1", "-timeout", "900s", "-run", "^TestGovcBounded", "-v", "./"+pkgShort)
+	cmd.Dir = repo
+	cmd.Env = append(os.Environ(), "GOFLAGS=-mod=mod", "GOPROXY=off", "GOSUMDB=off", "GOTOOLCHAIN=local",
+		fmt.Sprintf("VERIF_SEED=%d", seed), "VERIF_TIER="+tier)
+	out, _ := cmd.CombinedOutput()
+	txt := string(out)
+	secs := round3(time.Since(t0).Seconds())
+	for _, name := range names {
+		rec := recs[name]
+		rec["seconds_shared_run"] = secs
+		cases := 0
+		var bounds []string
+		for _, l := range strings.Split(txt, "\n") {
+			if i := strings.Index(l, "GOVC-BOUNDED-OK "+name+" "); i >= 0 {
+				for _, kv := range strings.Fields(l[i:]) {
+					if strings.HasPrefix(kv, "cases=") {
+						n, _ := strconv.Atoi(kv[6:])
+						cases += n
+					}
+				}
+				bounds = append(bounds, strings.TrimSpace(l[i+len("GOVC-BOUNDED-OK"):]))
+			}
+			if i := strings.Index(l, "GOVC-BOUNDED-FAIL "+name); i >= 0 {
+				rec["violation"] = strings.TrimSpace(l[i:])
+			}
+		}
+		rec["cases"] = cases
+		rec["bounds"] = bounds
+		if _, bad := rec["violation"]; !bad && cases == 0 {
+			rec["error"] = truncate(txt, 1500)
+		}
+		er.Bounded = append(er.Bounded, rec)
+	}
 }
